@@ -421,6 +421,13 @@ func c04Judge(cs *C04Case, alone *c04Alone, run *c04Run, sites *SiteTable) (fail
 			}
 		}
 	}
+	for i := range results {
+		for j, r := range results[i] {
+			if !r.Intact() {
+				add("equals-alone", fmt.Sprintf("the []byte that task %d operation %d returned (%q) was overwritten afterwards by another render: it now reads %q", i+1, j, clip(r.Out), clip(string(r.bytes))), "returned-bytes-overwritten")
+			}
+		}
+	}
 	for _, ch := range run.changed {
 		add("shared-bindings-unchanged", ch, "bindings")
 	}
